@@ -4,6 +4,7 @@ import ComposeVerif.Model.Path
 import ComposeVerif.Model.MapOrder
 import ComposeVerif.Model.Validate
 import ComposeVerif.Model.C02ExtendsX
+import ComposeVerif.Model.C02History
 import ComposeVerif.Gen.Tables
 /-! line-protocol ops for C02 (determinism): path matching, the regenerated rule tables, and the
 map→sequence decoders of `Model/MapOrder.lean`. -/
@@ -189,7 +190,31 @@ def validateOp : Handler := fun args =>
     | .ok => Json.mkObj [("class", "ok")]
     | _ => Json.mkObj [("class", "fail")]
 
+/-- `Model/C02History.lean`: a sequence of loads of one service's `depends_on` (short list + long-form refinements of a
+later file) in one process; the answer is what the LAST load holds, by the code as it is (`load false`).
+args: `steps` = `[{"short": [name…], "over": [{"n": name, "kv": [[k, v]…]}…]}…]` -/
+def historyOp : Handler := fun args =>
+  let step (j : Json) : CV.Det.History.In :=
+    let over : List (String × CV.Det.History.KS) := match j.getObjVal? "over" with
+      | .ok (.arr a) => a.toList.map fun o =>
+          (getStr o "n", match o.getObjVal? "kv" with
+            | .ok (.arr kv) => kv.toList.filterMap fun e => match e with
+              | .arr #[.str k, .str v] => some (k, v)
+              | _ => none
+            | _ => [])
+      | _ => []
+    ⟨getStrList j "short", over⟩
+  match args.getObjVal? "steps" with
+  | .ok (.arr a) =>
+    match a.toList.map step |>.reverse with
+    | [] => Json.mkObj [("bad", "no steps")]
+    | last :: revHist =>
+      let r := CV.Det.History.runSeq (CV.Det.History.load false) CV.Det.History.dfltLit revHist.reverse last
+      Json.mkObj [("ok", Json.mkObj (r.map fun e => (e.1, Json.mkObj (e.2.map fun kv => (kv.1, Json.str kv.2)))))]
+  | _ => Json.mkObj [("bad", "steps")]
+
 def handlers : List (String × Handler) := [
+  ("c02.history", historyOp),
   ("c02.validate", validateOp), ("c02.extendsX", extendsXOp),
   ("c02.pmatch", pmatchOp), ("c02.table", tableOp), ("c02.ruleAt", ruleAtOp), ("c02.intoSeq", intoSeqOp),
   ("c02.ssh", sshOp), ("c02.hosts", hostsOp), ("c02.mapping", mappingOp), ("c02.merge", mergeOp), ("c02.mergeSeq", mergeSeqOp),
